@@ -53,12 +53,16 @@ def check_follow_wire(ctx, top):
     loop = next((s for s in fw.body if isinstance(s, ast.While)), None)
     ctx.need(loop is not None, "no while loop in follow_wire")
     # box, off = diagram.boxes[i], diagram.offsets[i]
-    binds = [s for s in loop.body if isinstance(s, ast.Assign) and isinstance(s.targets[0], ast.Tuple)]
+    single = {ast.unparse(s.value): s.targets[0].id for s in loop.body if isinstance(s, ast.Assign) and len(s.targets) == 1 and isinstance(s.targets[0], ast.Name)}
+    for s in loop.body:
+        if isinstance(s, ast.Assign) and isinstance(s.targets[0], ast.Tuple) and isinstance(s.value, ast.Tuple):
+            single.update({ast.unparse(v): t.id for t, v in zip(s.targets[0].elts, s.value.elts) if isinstance(t, ast.Name)})
+    binds = [s for s in loop.body if isinstance(s, ast.Assign)]
     ctx.need(bool(binds), "follow_wire does not bind the current box and offset")
-    t = [ast.unparse(x) for x in binds[0].targets[0].elts]
-    v = [ast.unparse(x) for x in binds[0].value.elts]
-    bx, of = (t[0], t[1]) if v == ["%s.boxes[%s]" % (dg, iv), "%s.offsets[%s]" % (dg, iv)] else (None, None)
-    ctx.ob("R07.1", Q + ".follow_wire:current-box", bx is not None, found=ast.unparse(binds[0]), required="box, off = diagram.boxes[i], diagram.offsets[i]",
+    bx, of = single.get("%s.boxes[%s]" % (dg, iv)), single.get("%s.offsets[%s]" % (dg, iv))
+    if of is None:
+        bx = None
+    ctx.ob("R07.1", Q + ".follow_wire:current-box", bx is not None and of is not None, found=[ast.unparse(b) for b in binds][:3], required="box, off = diagram.boxes[i], diagram.offsets[i]",
            mod=RW, node=binds[0], sig="current-box")
     if bx is None:
         return
